@@ -132,7 +132,7 @@ def run_session(w, sc, mon):
                 viol("accept_of_wrong:" + kind, "server ACCEPTED a wrong presentation: kind=%s pos=%s A=%s M1=%s (right M1=%s)" % (
                     kind, pos, A_p.hex(), M1_p.hex(), exp["M1"].hex()))
             else:
-                if r.b("client_proof") != M1_p or r.b("server_proof") != exp["M1"]:
+                if {r.b("client_proof"), r.b("server_proof")} != {M1_p, exp["M1"]}:
                     viol("error_payload:" + kind, "MatchProofsError carries client_proof=%s server_proof=%s, expected presented=%s computed=%s" % (
                         r.f.get("client_proof"), r.f.get("server_proof"), M1_p.hex(), exp["M1"].hex()))
         mon.cell((kind, pos))
@@ -156,7 +156,7 @@ def run_session(w, sc, mon):
                 viol("client_accept_of_wrong:" + kind, "client ACCEPTED a wrong server proof: kind=%s pos=%s presented=%s right=%s" % (
                     kind, pos, M2_p.hex(), ms["M2"].hex()))
             else:
-                if r.b("server_proof") != M2_p or r.b("client_proof") != ms["M2"]:
+                if {r.b("server_proof"), r.b("client_proof")} != {M2_p, ms["M2"]}:
                     viol("client_error_payload:" + kind, "MatchProofsError carries client_proof=%s server_proof=%s, expected own=%s presented=%s" % (
                         r.f.get("client_proof"), r.f.get("server_proof"), ms["M2"].hex(), M2_p.hex()))
         mon.cell((kind, pos))
@@ -272,7 +272,7 @@ def run_session(w, sc, mon):
             mon.count("expected_reject")
             if r.ok:
                 viol("accept_of_wrong:replay_against_fresh_B", "server ACCEPTED the (A, M1) recorded in an earlier login against a fresh SrpProof with another B")
-            elif r.status == "err" and (r.b("client_proof") != M1 or r.b("server_proof") != exp2["M1"]):
+            elif r.status == "err" and ({r.b("client_proof"), r.b("server_proof")} != {M1, exp2["M1"]}):
                 viol("error_payload:replay_against_fresh_B", "error payload differs from (presented, model) on a replay against a fresh B")
             mon.cell(("replay_against_fresh_B", 0))
             # honest client for the new B
